@@ -414,7 +414,7 @@ def run(ctx):
                        ">=2 calls with a context switch inside a cache fill; distinct = canonical JSON")
     ctx.assumptions += [
         "instance classes on which RFC and Go parser legitimately differ are not generated: leap second :60, zone offset 24:00/:60, lower-case t/z, "
-        "',' fraction separator, IPv4 leading zeros, IPv6 zones, CIDR prefix leading zeros, 20-octet MAC, non-RFC4122 UUID variants and nil UUID, "
+        "',' fraction separator, IPv4 leading zeros, IPv6 zones, CIDR prefix leading zeros, 20-octet MAC, the nil UUID, "
         "host names with trailing dot or all-numeric last label, RFC 822 zones UT/military/numeric, 1-digit days, weekday not matching the date, "
         "URI references without scheme, space/'<' in URI path or query",
         "the braced and bare UUID forms documented on goa's validateUUID count as well-formed",
